@@ -33,6 +33,21 @@ fn fit_case<T: Sc>(rng: &mut Rng, case: u64, out: &mut CaseOut) {
         1 => g.alpha_true.iter().map(|a| a * rng.logrange(0.2, 5.0)).collect(),
         _ => wide_alpha(rng, &g.alpha_true),
     };
+    if rng.chance(0.15) {
+        spec.eps = Some(rng.logrange(1e-8, 0.5));
+    }
+    fit_checks::<T>(rng, case, out, stream, spec);
+}
+
+/// fits that start (and, by symmetry, end) at a rank-deficient point with a user threshold
+fn rankdef_fit_case<T: Sc>(rng: &mut Rng, case: u64, out: &mut CaseOut) {
+    let (g, _hist) = gen_rank_deficient(rng, T::IS_F64, 3, 0);
+    let mut spec = g.spec;
+    spec.par = false;
+    fit_checks::<T>(rng, case, out, "rank-deficient-fits", spec);
+}
+
+fn fit_checks<T: Sc>(rng: &mut Rng, case: u64, out: &mut CaseOut, stream: &str, spec: ProblemSpec) {
     let cfg = LmCfg::random(rng);
     let lm = cfg.make::<T>();
     let np = spec.model.np();
@@ -103,7 +118,8 @@ fn fit_case<T: Sc>(rng: &mut Rng, case: u64, out: &mut CaseOut) {
     let r: Vec<f64> = r.iter().map(|v| v.w()).collect();
     // C-hat optimal for alpha-hat (C01 certificate with its KF-1 triage), residual identity (C02)
     let nv = out.violations.len();
-    crate::props::c01::check_state::<T>(out, stream, case, &spec, &yw, &alpha, &c, T::EPS, "final state of a successful fit");
+    let thr = spec.eps.map(|e| crate::sc::rt::<T>(e).abs()).unwrap_or(T::EPS);
+    crate::props::c01::check_state::<T>(out, stream, case, &spec, &yw, &alpha, &c, thr, "final state of a successful fit");
     if out.violations.len() > nv {
         return;
     }
@@ -143,5 +159,6 @@ pub fn run(ctx: &Ctx) {
     ctx.rule("fits of zoo problems (1..3 right-hand sides, six weight classes, builder-made and hand-written, f32/f64, noiseless and 5% noise) from starts within 10%, 0.2x..5x and 0.4x..2.5x of the generating parameters under random optimizer settings (patience 1..100, tolerances 0..1e-2, step bound 0.01..100, scale_diag on/off, and the default); each fit is run twice: the real LevMarSolver::fit with a ModelSpy log, and minimize over a ProblemSpy with the same optimizer; the two call logs, reports and final parameters must be identical, then: Ok <=> successful termination, model evaluations and number_of_evaluations <= patience·(P+1), and for successful fits the C01 certificate and C02 identity at the returned state, objective = 1/2|r|^2 (1e-12), objective <= objective at the initial guess. distinct = (problem, optimizer configuration); every fit is non-trivial");
     ctx.assume("sequential flavour only (the parallel flavour's call log is schedule dependent; C11 compares parallel fits with sequential ones)");
     let t = ctx.tier;
-    ctx.run_cases("fits", t.pick(3000, 80000), t.pick(20.0, 240.0), |r, c, o| if c % 4 == 0 { fit_case::<f32>(r, c, o) } else { fit_case::<f64>(r, c, o) });
+    ctx.run_cases("fits", t.pick(12000, 80000), t.pick(20.0, 240.0), |r, c, o| if c % 4 == 0 { fit_case::<f32>(r, c, o) } else { fit_case::<f64>(r, c, o) });
+    ctx.run_cases("rank-deficient-fits", t.pick(2500, 15000), t.pick(15.0, 120.0), |r, c, o| if c % 4 == 0 { rankdef_fit_case::<f32>(r, c, o) } else { rankdef_fit_case::<f64>(r, c, o) });
 }
